@@ -26,8 +26,12 @@ def E(*outs):
 def base_scenarios():
     S = []
 
-    def add(name, *stages, deep=False, quick=True):
-        S.append({'name': name, 'stages': [list(st) for st in stages], 'deep': deep, 'quick': quick})
+    def add(name, *stages, deep=False, quick=True, repeat=False, sched=True):
+        # deep: family C (thorough bound 2); repeat: family D (k >= 3 growth steps on one address, bound 2);
+        # sched: False = family A only, or a list of stages = family B explores only these stages (the rest
+        # has exactly the schedule shape of another chain, see the comments at the chain)
+        S.append({'name': name, 'stages': [list(st) for st in stages], 'deep': deep or repeat, 'quick': quick,
+                  'repeat': repeat, 'sched': sched})
 
     pay = 'pay'
     # -- fund
@@ -36,6 +40,16 @@ def base_scenarios():
     add('fund-both-chains', [tx('T1', 'block', ['ext'], [['r0', 50, pay], ['c0', 20, pay]])])
     add('fund-same-address-again', [tx('T1', 'block', ['ext'], [['r0', 50, pay]])],
         [tx('T2', 'block', ['ext'], [['r0', 30, pay]])], deep=True)
+    # -- k >= 3 growth steps touching ONE address: with early GROW / DEFER the notifications 2, 3 (, 4) are issued
+    #    while earlier updates of that address are still in flight or queued behind each other
+    add('fund-same-address-x3', [tx('T1', 'block', ['ext'], [['r0', 50, pay]])],
+        [tx('T2', 'block', ['ext'], [['r0', 30, pay]])], [tx('T3', 'mempool', ['ext'], [['r0', 10, pay]])],
+        repeat=True)
+    add('fund-same-address-x4', [tx('T1', 'block', ['ext'], [['r0', 50, pay]])],
+        [tx('T2', 'block', ['ext'], [['r0', 30, pay]])], [tx('T3', 'mempool', ['ext'], [['r0', 10, pay]])],
+        [tx('T4', 'mempool', ['ext'], [['r0', 5, pay]])], repeat=True)
+    add('same-address-mempool-confirm-spend', [tx('T1', 'mempool', ['ext'], [['r0', 50, pay]])],
+        [['confirm', ['T1']]], [tx('T2', 'mempool', [['T1', 0]], [['c0', 49, pay]])], repeat=True)
     add('fund-block-and-mempool', [tx('T1', 'block', ['ext'], [['r0', 50, pay]]),
                                    tx('T2', 'mempool', ['ext'], [['r0', 30, pay], ['r1', 10, pay]])], quick=False)
     # -- spend with change
@@ -48,9 +62,14 @@ def base_scenarios():
     # -- self-spend across two addresses
     add('selfspend-2addr-1src', [tx('T1', 'block', ['ext'], [['r0', 50, pay], ['r1', 20, pay]])],
         [tx('T2', 'mempool', [['T1', 0], ['T1', 1]], [['c0', 69, pay]])], deep=True)
+    # (schedule shape of selfspend-2addr-1src: same notification sets, same requests -> family A only)
     add('selfspend-2addr-2src', [tx('T1', 'block', ['ext'], [['r0', 50, pay]]),
                                  tx('T2', 'block', ['ext'], [['r1', 20, pay]])],
-        [tx('T3', 'block', [['T1', 0], ['T2', 0]], [['x', 30, 'p2pkh'], ['c0', 39, pay]])])
+        [tx('T3', 'block', [['T1', 0], ['T2', 0]], [['x', 30, 'p2pkh'], ['c0', 39, pay]])], sched=False)
+    # one transaction with two wallet inputs that leaves a claim AND change: every field of the detailed balance
+    # (total / available / reserved / claims) is non-zero and computed over a multi-input transaction
+    add('selfspend-2addr-claim-and-change', [tx('T1', 'block', ['ext'], [['r0', 50, pay], ['r1', 20, pay]])],
+        [tx('T2', 'block', [['T1', 0], ['T1', 1]], [['r2', 20, 'claim'], ['c0', 49, pay]])], sched=False)
     add('two-funds-one-address-spent-together',
         [tx('T1', 'block', ['ext'], [['r0', 50, pay]]), tx('T2', 'block', ['ext'], [['r0', 30, pay]])],
         [tx('T3', 'mempool', [['T1', 0], ['T2', 0]], [['c0', 79, pay]])])
@@ -60,13 +79,16 @@ def base_scenarios():
     add('claim-update', [tx('T1', 'block', ['ext'], [['r0', 50, pay]]),
                          tx('T2', 'block', [['T1', 0]], [['r1', 10, 'claim'], ['c0', 39, pay]])],
         [tx('T3', 'block', [['T2', 0]], [['r2', 10, 'update']])])
+    # (stage 0 is the very same two transactions as claim-update's stage 0 -> family B explores stage 1 only)
     add('claim-abandon', [tx('T1', 'block', ['ext'], [['r0', 50, pay]]),
                           tx('T2', 'block', [['T1', 0]], [['r1', 10, 'claim'], ['c0', 39, pay]])],
-        [tx('T3', 'mempool', [['T2', 0]], [['c1', 9, pay]])])
+        [tx('T3', 'mempool', [['T2', 0]], [['c1', 9, pay]])], sched=[1])
+    # (same schedule tree as `claim`, only the script kind of one output differs -> family A only)
     add('support-own', [tx('T1', 'block', ['ext'], [['r0', 50, pay]])],
-        [tx('T2', 'block', [['T1', 0]], [['r1', 10, 'support'], ['c0', 39, pay]])])
+        [tx('T2', 'block', [['T1', 0]], [['r1', 10, 'support'], ['c0', 39, pay]])], sched=False)
+    # (same schedule tree as spend-change -> family A only)
     add('tip-received-then-spent', [tx('T1', 'block', ['ext'], [['r0', 10, 'support']])],
-        [tx('T2', 'mempool', [['T1', 0]], [['c0', 9, pay]])])
+        [tx('T2', 'mempool', [['T1', 0]], [['c0', 9, pay]])], sched=False)
     # -- re-spend of change
     add('respend-change', [tx('T1', 'block', ['ext'], [['r0', 50, pay]])],
         [tx('T2', 'mempool', [['T1', 0]], [['x', 20, 'p2pkh'], ['c0', 29, pay]])],
@@ -102,7 +124,7 @@ def base_scenarios():
     # -- a purchase paid to us: payment at position 0, purchase data (OP_RETURN) at position 1
     add('purchase-received-then-spent',
         [tx('T1', 'block', ['ext'], [['r0', 50, pay], ['x', 0, 'purchase_data']])],
-        [tx('T2', 'mempool', [['T1', 0]], [['c0', 49, pay]])])
+        [tx('T2', 'mempool', [['T1', 0]], [['c0', 49, pay]])], sched=False)   # schedule tree of spend-change
     # -- a later transaction spends the third-party output of an earlier one and pays us again
     add('third-output-respent', [tx('T1', 'block', ['ext'], [['r0', 50, pay], ['x', 5, 'K']])],
         [tx('T2', 'block', [['T1', 1]], [['r0', 4, pay]])])
@@ -305,7 +327,7 @@ def work(item, res):
     def on_result(ch, r):
         res.count('executions')
         res.count('evaluations')
-        res.count(f'executions_family_{"ABC"[bound]}')
+        res.count('executions_family_' + ((opts or {}).get('fam') or 'ABC'[bound]))
         res.count('transitions', r['steps'] + r['iterations'])
         choices = ch.choices
         cost = ch.cost()
@@ -421,9 +443,13 @@ def plan(ctx):
     # all schedules within the deviation bound
     b1 = 1
     for s in base:
+        if s['sched'] is False:
+            continue
         for kind in ['none']:
             spec = with_third(s, kind)
             for stage, syms in enumerate(sets[s['name']]):
+                if s['sched'] is not True and stage not in s['sched']:
+                    continue
                 for order in itertools.permutations(syms):
                     items.append((spec, 'notify', stage, list(order), b1, {}))
                 if not quick or stage == len(sets[s['name']]) - 1:
@@ -440,6 +466,20 @@ def plan(ctx):
                 for order in itertools.permutations(syms):
                     items.append((spec, 'notify', stage, list(order), 2, {'s_cost': 2}))
             items.append((spec, 'restore', len(sets[s['name']]) - 1, None, 2, {'s_cost': 2}))
+    # family D (quick; in thorough these chains are deep = family C, a superset): chains whose stages all touch
+    # one address, every stage, cost <= 2 over the queue-empty deviations only (no early injection; family B has
+    # the single early injections).  The next stages' GROW events chain on, so up to k = 4 notifications for the
+    # address are issued inside one window.
+    if quick:
+        for s in base:
+            if not s['repeat']:
+                continue
+            spec = with_third(s, 'none')
+            for stage, syms in enumerate(sets[s['name']]):
+                if stage == len(sets[s['name']]) - 1:
+                    continue      # nothing can grow during the last stage: family B's bound 1 is the same space + 1
+                for order in itertools.permutations(syms):
+                    items.append((spec, 'notify', stage, list(order), 2, {'early': False, 'fam': 'D'}))
     return items, base, sets
 
 
@@ -458,26 +498,32 @@ def run(ctx):
         res.tally('quiescent_state_depends_on_schedule', n_states - n_keys)
     fam = {'A_default_schedule': sum(1 for i in items if i[4] == 0),
            'B_bound1': sum(1 for i in items if i[4] == 1),
-           'C_bound2_queue_empty_pairs': sum(1 for i in items if i[4] == 2)}
+           'C_bound2_early_injection_costs_2': sum(1 for i in items if i[4] == 2 and not i[5].get('fam')),
+           'D_bound2_queue_empty_only_repeated_address': sum(1 for i in items if i[5].get('fam') == 'D')}
     ctx.meta.update(
         rule=('case = (chain, third-party output kind, mode, stage, notification order, choice sequence). Chains: '
               f'{len(base)} programs over the grammar fund / spend+change / self-spend over two addresses / claim, '
               'update, abandon, support, tip / re-spend of change / mempool then confirmation (heights 0, -1) / '
               'funds at gap distance g-1, g, g+1, chain reaction / both chains / re-spent third-party output, each '
-              'growing in 1-3 stages. A: every chain x {none + 14 third-party script kinds} x every stage x every '
+              'growing in 1-4 stages. A: every chain x {none + 14 third-party script kinds} x every stage x every '
               'order of the stage\'s notification set + the restore path (whole chain present at subscribe time), '
               'default schedule. B: every chain x every stage x every order + '
               'restore (quick: restore of the complete chain only), every schedule with deviation cost <= 1 (early injection at any iteration boundary, '
               'non-oldest delivery, deferral of the oldest reply, early chain growth). C (thorough): deep chains, '
-              'cost <= 2 with early injection costing 2. Stage s is explored from the default-schedule state of '
+              'cost <= 2 with early injection costing 2. D (quick; part of C in thorough): the chains with 3-4 growth '
+              'steps on ONE address, every stage but the last, cost <= 2 over queue-empty deviations (out-of-order '
+              'delivery, deferral, early growth; growth events chain on, so notifications 2..4 of the address are '
+              'issued inside one window). Family B skips chains/stages whose schedule tree is identical to another '
+              "chain's (support-own = claim; tip / purchase = spend-change; selfspend-2src = selfspend-1src; stage 0 "
+              'of claim-abandon = stage 0 of claim-update); they stay in A. Stage s is explored from the default-schedule state of '
               'stage s-1 (all schedules of a stage are checked to end in one canonical state). Non-trivial = an '
               'execution with a deviation, or in which two address syncs were in flight together, or a newly '
               'generated address came back with history.'),
         exhaustive=(n_states == n_keys),
         bounds={'deviation_bound_B': 1, 'deviation_bound_C': None if ctx.quick else 2, 'receiving_gap': 3,
-                'change_gap': 2, 'max_stages': 3, 'max_tx_per_chain': 3 if ctx.quick else 5, 'third_party_kinds': len(H.THIRD_KINDS),
+                'change_gap': 2, 'max_stages': 4, 'max_overlapping_updates_of_one_address': 4, 'max_tx_per_chain': 3 if ctx.quick else 5, 'third_party_kinds': len(H.THIRD_KINDS),
                 'items': fam, 'chains': len(base)},
-        bound_completed=1 if ctx.quick else 2,
+        bound_completed=1 if ctx.quick else 2,   # quick: 2 on family D
         alphabet={'chains': [s['name'] for s in base], 'third_party_output_kinds': ['none'] + H.THIRD_KINDS,
                   'modes': ['notify (stage by stage)', 'restore (whole chain at subscribe time)'],
                   'deviations': ['early injection of a job/reply/notification/growth at an iteration boundary',
@@ -495,7 +541,8 @@ def run(ctx):
         ],
         expected_witnesses=['two_updates_past_get_history_before_either_saved', 'same_address_updates_overlap',
                             'stale_history_reply_delivered', 'subscribe_reply_with_history', 'early_grow',
-                            'deferred_reply_across_grow', 'early_injection'],
+                            'deferred_reply_across_grow', 'early_injection',
+                            'three_same_address_updates_overlap', 'update_arrives_while_queued_successor_runs'],
     )
 
 
